@@ -18,7 +18,7 @@ RULE = (
     '2 path-ids on ADD-PATH sessions, 2 watchdog names): announce (the API call chain), announce of a configured watchdog route (add_to_rib_watchdog, optionally initially withdrawn), '
     'withdraw (bare / with next hop / with attributes), announce_watchdog, withdraw_watchdog, resend (plain or enhanced, one family or all), clear (rib.withdraw()), '
     'begin (create the generator the way Peer._send_route_updates / Protocol.new_update_generator do: only when none is open and pending(); include_withdraw False for the first one of a session), '
-    'step n (send n wire messages), finish. Operations interleave freely with an open generator (schedule quantifier). Session: ADD-PATH on/off, group-updates on/off, first generator of the session or not. '
+    'step n (send n wire messages), finish. Operations interleave freely with an open generator (schedule quantifier). Session: ADD-PATH on/off, group-updates on/off, first generator of the session or not, and one in five without Adj-RIB-Out (announce / withdraw / flush operations only, clause 2 only). '
     'Every wire message is applied in order by an independent model peer. At every quiescent point (no generator, pending() false) and after the final drain: '
     '(1) the model table equals the table derived from cached_routes() (each cached route encoded alone and decoded by refwire: same keys, attributes, next hop, label); '
     '(2) the model table equals what the last operation on every key asked for (no stale announce survives, nothing withdrawn is back). In between: nothing in the model table that was never requested. '
@@ -71,26 +71,27 @@ _NEIGHBORS: dict = {}
 
 def neighbor_for(session: dict):
     """one real Neighbor per (addpath, group) - RIB objects are shared process-wide by neighbor name"""
-    key = (bool(session['addpath']), bool(session['group']))
+    key = (bool(session['addpath']), bool(session['group']), bool(session.get('cache', True)))
     if key not in _NEIGHBORS:
         fams = [FAMILY_TEXT[f] for f in FAMILIES]
-        idx = 1 + int(key[0]) * 2 + int(key[1])
+        idx = 1 + int(key[0]) * 2 + int(key[1]) + (0 if key[2] else 4)
         text = exa.neighbor_text(
             peer_ip=f'127.4.0.{idx}',
             local_ip=LOCAL_IP,
             local_as=65000,
             peer_as=65000,
             families=fams,
-            capability={'asn4': 'enable', 'route-refresh': 'enable', 'add-path': 'send/receive' if key[0] else 'disable'},
+            # no Adj-RIB-Out is only kept off with route-refresh off (the configuration turns it back on otherwise)
+            capability={'asn4': 'enable', 'route-refresh': 'enable' if key[2] else 'disable', 'add-path': 'send/receive' if key[0] else 'disable'},
             addpath_families=fams if key[0] else None,
-            extra=f'  adj-rib-out true;\n  group-updates {"true" if key[1] else "false"};',
+            extra=f'  adj-rib-out {"true" if key[2] else "false"};\n  group-updates {"true" if key[1] else "false"};',
         )
         conf, neighbor = exa.neighbor_from_text(text)
         caps = [build.cap_mp(a, s) for a, s in FAMILIES] + [build.cap_asn4(65000), build.cap_refresh(), build.cap_erefresh()]
         if key[0]:
             caps.append(build.cap_addpath([(a, s, 3) for a, s in FAMILIES]))
         neg = exa.negotiate(neighbor, build.open_with_caps(65000, 90, 0x0A000002, caps), exa.Direction.OUT)
-        if bool(neighbor.group_updates) != key[1] or not neighbor.adj_rib_out:
+        if bool(neighbor.group_updates) != key[1] or bool(neighbor.adj_rib_out) != key[2]:
             raise RuntimeError('harness: neighbor options not applied')
         for fam in FAMILIES:
             if bool(neg.addpath.send(*_family(fam))) != key[0]:
@@ -476,8 +477,8 @@ class Driver:
                 return 'label'
             return None
 
-        # clause 1: the peer's table equals the Adj-RIB-Out ExaBGP reports
-        for key in sorted(set(got) | set(expected), key=str):
+        # clause 1: the peer's table equals the Adj-RIB-Out ExaBGP reports (when one is kept)
+        for key in sorted(set(got) | set(expected), key=str) if self.session.get('cache', True) else []:
             if key not in expected:
                 problems.append(('converge:route-at-peer-not-in-adj-rib-out', key, f'peer holds {got[key]}, cached_routes() has no such route'))
             elif key not in got:
@@ -560,6 +561,8 @@ def check(case: dict) -> dict:
         d.classes.add('addpath')
     if case['session']['group']:
         d.classes.add('group-updates')
+    if not case['session'].get('cache', True):
+        d.classes.add('no-adj-rib-out')
     if d.model.table:
         d.classes.add('final-table-not-empty')
     if d.model.withdraws:
@@ -601,6 +604,13 @@ def cases(draw):
     session = {'addpath': draw(st.booleans()), 'group': draw(st.booleans()), 'first': draw(st.booleans())}
     chunks = draw(st.lists(st.lists(OPS, min_size=1, max_size=12), min_size=1, max_size=6))
     ops = [list(op) for chunk in chunks for op in chunk][:50]
+    if draw(st.integers(0, 4)) == 0:
+        # a neighbor that keeps no Adj-RIB-Out (adj-rib-out false + route-refresh disable): nothing to re-send or clear from,
+        # clause 2 (the last announce or withdraw of a key decides what the peer holds) is what remains
+        session['cache'] = False
+        ops = [op for op in ops if op[0] in ('announce', 'withdraw', 'begin', 'step', 'finish')]
+        if not ops:
+            ops = [['announce', 0, 0, 0, 0, 0]]
     return {'session': session, 'ops': ops}
 
 
